@@ -1,12 +1,79 @@
-//! One module per property.
-use crate::engine::Tier;
+//! One generic case type for every check (so the engine is instantiated once and every replay
+//! file is self-describing) and the per-property assembly of generators, oracles and rules.
+
+use crate::engine::{replay_one, run_check, CheckSpec, Outcome, Part, Tier};
+use crate::market::MarketCase;
+use crate::ops::BookCase;
+use serde::{Deserialize, Serialize};
+use serde_json::json;
 
 pub mod book;
+pub mod multi;
+
+#[derive(Clone, Debug, PartialEq, Eq, Hash, Serialize, Deserialize)]
+pub enum Case {
+    Book(BookCase),
+    Market(MarketCase),
+    Trunc(multi::TruncCase),
+}
+
+const BOOK_IDS: [&str; 9] = ["C01", "C02", "C03", "C04", "C05", "C06", "C07", "C12", "C13"];
+
+fn static_id(id: &str) -> Option<&'static str> {
+    const ALL: [&str; 20] = ["C01", "C02", "C03", "C04", "C05", "C06", "C07", "C08", "C09", "C10", "C11", "C12", "C13", "C14", "C15", "C16", "C17", "C18", "C19", "C20"];
+    ALL.iter().find(|x| **x == id).cloned()
+}
+
+pub fn outcome(id: &'static str, case: &Case) -> Outcome {
+    match case {
+        Case::Book(c) => book::outcome(id, c),
+        Case::Market(c) => multi::market_outcome(id, c),
+        Case::Trunc(c) => multi::trunc_outcome(id, c),
+    }
+}
+
+fn simplify(case: &Case) -> Vec<Case> {
+    match case {
+        Case::Book(c) => book::simplify(c).into_iter().map(Case::Book).collect(),
+        Case::Market(c) => multi::simplify_market(c).into_iter().map(Case::Market).collect(),
+        Case::Trunc(_) => vec![],
+    }
+}
+
+pub fn spec(id: &'static str, tier: Tier) -> Option<CheckSpec<Case>> {
+    let mut parts: Vec<Part<Case>> = vec![];
+    let mut rule = String::new();
+    let mut assumptions: Vec<String> = vec![];
+    if BOOK_IDS.contains(&id) {
+        parts.extend(book::parts(id, tier));
+        rule = book::rule(id);
+        assumptions = book::assumptions(id);
+    }
+    if let Some((p, r)) = multi::parts(id, tier) {
+        parts.extend(p);
+        if rule.is_empty() {
+            rule = r;
+        } else {
+            rule = format!("{} || Multi-asset / file parts: {}", rule, r);
+        }
+    }
+    if parts.is_empty() {
+        return None;
+    }
+    if assumptions.is_empty() {
+        assumptions = book::assumptions(id);
+    }
+    Some(CheckSpec { id, tier, rule, assumptions, parts, run: Box::new(move |c| outcome(id, c)), simplify: Some(Box::new(simplify)), extra: json!({}) })
+}
 
 pub fn run(id: &str, tier: Tier) -> i32 {
-    match id {
-        "C01" | "C02" | "C03" | "C04" | "C05" | "C06" | "C07" | "C12" | "C13" => book::run(id, tier),
-        _ => {
+    let Some(sid) = static_id(id) else {
+        eprintln!("unknown property {}", id);
+        return 2;
+    };
+    match spec(sid, tier) {
+        Some(s) => run_check(s),
+        None => {
             eprintln!("no check registered for {}", id);
             2
         }
@@ -14,11 +81,9 @@ pub fn run(id: &str, tier: Tier) -> i32 {
 }
 
 pub fn replay(id: &str, path: &str) -> i32 {
-    match id {
-        "C01" | "C02" | "C03" | "C04" | "C05" | "C06" | "C07" | "C12" | "C13" => book::replay(id, path),
-        _ => {
-            eprintln!("no check registered for {}", id);
-            2
-        }
-    }
+    let Some(sid) = static_id(id) else {
+        eprintln!("unknown property {}", id);
+        return 2;
+    };
+    replay_one::<Case>(sid, path, |c| outcome(sid, c))
 }
